@@ -80,7 +80,9 @@ pub struct World {
   idle_timeouts: usize,
   real_clock: bool,
   real_t0: u64,
-  pub runaway: bool
+  pub runaway: bool,
+  timeouts_seen: usize,
+  pub stall: Option<(usize, u64)>     // one-off stall: the n-th time-out is served this much late
 }
 
 pub fn fault_text(k: usize) -> String { format!("injected fault #{}", k) }
@@ -95,7 +97,7 @@ impl World {
       sched, arrivals, next_batch: 0, cur_batch: None, trickle_done: false, spurious_left: sp, interrupt_done: false,
       kq: VecDeque::new(), tq: VecDeque::new(), k_ready: false, t_ready: false, tablet_first: false,
       log: Vec::new(), calls: 0, fault_at, faulted: false, calls_after_fault: 0, lateness_ns,
-      idle_timeouts: 0, real_clock, real_t0: vclock::real_now_ns(), runaway: false
+      idle_timeouts: 0, real_clock, real_t0: vclock::real_now_ns(), runaway: false, timeouts_seen: 0, stall: None
     }
   }
 
@@ -173,14 +175,18 @@ impl ScriptedDriver for World {
       let i = self.next_batch;
       let t_arr = self.arrivals[i];
       let deadline_first = match timeout_ns { Some(d) => t + d <= t_arr, None => false };
-      if deadline_first {
-        self.wait_until(t + timeout_ns.unwrap() + self.lateness_ns);
-        result = PollRes::TimedOut;
-      }
-      else if self.sched.batches[i].interrupt && !self.interrupt_done {
+      if self.sched.batches[i].interrupt && !self.interrupt_done {
+        // the signal hits the first wait after the previous arrival, whatever its time-out
         self.interrupt_done = true;
-        if t_arr > t { self.wait_until(t + (t_arr - t) / 2); }
+        let limit = match timeout_ns { Some(d) => std::cmp::min(t + d / 2, t_arr), None => t_arr };
+        if limit > t { self.wait_until(t + (limit - t) / 2); }
         result = PollRes::Interrupted;
+      }
+      else if deadline_first {
+        self.timeouts_seen += 1;
+        let stall = match self.stall { Some((n, ns)) if n == self.timeouts_seen => ns, _ => 0 };
+        self.wait_until(t + timeout_ns.unwrap() + self.lateness_ns + stall);
+        result = PollRes::TimedOut;
       }
       else if self.spurious_left > 0 {
         self.spurious_left -= 1;
@@ -264,7 +270,12 @@ pub struct RunResult {
 
 // One execution of the real per-device loop against a scripted world.
 pub fn run_case(layout: &Layout, sched: &Schedule, fault_at: Option<usize>, lateness_ns: u64, real_clock: bool) -> RunResult {
+  run_case_stall(layout, sched, fault_at, lateness_ns, real_clock, None)
+}
+
+pub fn run_case_stall(layout: &Layout, sched: &Schedule, fault_at: Option<usize>, lateness_ns: u64, real_clock: bool, stall: Option<(usize, u64)>) -> RunResult {
   let mut w = World::new(sched.clone(), fault_at, lateness_ns, real_clock);
+  w.stall = stall;
   if !real_clock { vclock::enable(0); }
   let r = std::panic::catch_unwind(std::panic::AssertUnwindSafe(|| run_one_device(&mut w, layout.clone(), false)));
   if !real_clock { vclock::disable(); }
@@ -618,7 +629,12 @@ pub fn log_json(log: &[Rec]) -> Value {
 }
 
 fn replay_obj(prop: &str, case: &LayoutCase, sched: &Schedule, fault_at: Option<usize>, lateness_ns: u64) -> Value {
+  replay_obj_stall(prop, case, sched, fault_at, lateness_ns, None)
+}
+
+fn replay_obj_stall(prop: &str, case: &LayoutCase, sched: &Schedule, fault_at: Option<usize>, lateness_ns: u64, stall: Option<(usize, u64)>) -> Value {
   json!({
+    "stall": stall.map(|s| json!([s.0, s.1])),
     "engine": "loop", "property": prop, "source": case.source,
     "layout": serde_json::to_value(&case.layout).unwrap(), "layout_text": layout_str(&case.layout),
     "schedule": schedule_json(sched), "fault_at": fault_at, "lateness_ns": lateness_ns
@@ -677,7 +693,7 @@ pub fn gen_schedule(rng: &mut Rng, hist: &[Event], p: &SchedParams) -> Schedule 
   let mut interrupted_since_device_event = true;   // never two interruptions without a device event in between; none before the first
   let mut tablet_state = false;
   while i < hist.len() {
-    let n = match rng.below(20) { 0..=7 => 1, 8..=15 => rng.range(2, 3), 16..=18 => rng.range(4, 8), _ => rng.range(9, 24) };
+    let n = match rng.below(200) { 0..=79 => 1, 80..=159 => rng.range(2, 3), 160..=189 => rng.range(4, 8), 190..=197 => rng.range(9, 24), 198 => rng.range(100, 300), _ => rng.range(1025, 1400) };
     let n = std::cmp::min(n, hist.len() - i);
     let mut kb: Vec<KItem> = hist[i..i + n].iter().map(|e| KItem::Ev(e.clone())).collect();
     i += n;
@@ -801,11 +817,15 @@ impl StatsSer {
 }
 
 fn record(out: &mut ShardOut, prop: &str, lvs: &[LV], case: &LayoutCase, sched: &Schedule, fault_at: Option<usize>, lateness: u64, log: &[Rec]) -> bool {
+  record_stall(out, prop, lvs, case, sched, fault_at, lateness, log, None)
+}
+
+fn record_stall(out: &mut ShardOut, prop: &str, lvs: &[LV], case: &LayoutCase, sched: &Schedule, fault_at: Option<usize>, lateness: u64, log: &[Rec], stall: Option<(usize, u64)>) -> bool {
   let mut any = false;
   for lv in lvs {
     if lv.property != prop { out.count(&format!("other_property_observations_{}", lv.property)); continue; }
     any = true;
-    let mut rep = replay_obj(prop, case, sched, fault_at, lateness);
+    let mut rep = replay_obj_stall(prop, case, sched, fault_at, lateness, stall);
     let lo = if lv.index > 12 { lv.index - 12 } else { 0 };
     let hi = std::cmp::min(log.len(), lv.index + 3);
     rep["log_excerpt"] = log_json(&log[lo..hi]);
@@ -855,8 +875,18 @@ pub fn run(opts: &Opts) -> i32 {
     let reps = if case.source.starts_with("corpus") { per_layout * 4 } else { per_layout };
     let mut bad = 0;
     for si in 0..reps {
-      let hlen = rng.range(4, if thorough { 60 } else { 40 });
-      let hist = gen_history(&mut rng, case, hlen, n_max);
+      // mostly short histories with few keys held; now and then a flood (thousands of events) or many keys held at once
+      let (hlen, nm) = match rng.below(400) { 0 => (rng.range(1100, 2600), n_max), 1..=11 => (rng.range(30, 90), 24), _ => (rng.range(4, if thorough { 60 } else { 40 }), n_max) };
+      if hlen >= 1000 { out.count("flood_histories"); }
+      if nm > n_max { out.count("wide_histories"); }
+      let wide_case;
+      let case = if nm > n_max {
+        // extra keys outside the layout so that many keys can be held
+        let mut c = case.clone();
+        for _ in 0..20 { let k = any_key(&mut rng); if !c.layout_keys.contains(&k) { set_insert(&mut c.alphabet, k); set_insert(&mut c.foreign, k); } }
+        wide_case = c; &wide_case
+      } else { case };
+      let hist = gen_history(&mut rng, case, hlen, nm);
       let sp = match prop.as_str() {
         "C10" => SchedParams { tablet: if rng.chance(1, 3) { 10 } else { 0 }, timers: rng.chance(1, 2), oddities: true, end_anywhere: true },
         "C11" => SchedParams { tablet: if rng.chance(1, 4) { 8 } else { 0 }, timers: true, oddities: rng.chance(1, 2), end_anywhere: rng.chance(1, 4) },
@@ -864,8 +894,12 @@ pub fn run(opts: &Opts) -> i32 {
         _ => SchedParams { tablet: if rng.chance(1, 2) { 15 } else { 0 }, timers: rng.chance(1, 2), oddities: rng.chance(1, 2), end_anywhere: rng.chance(1, 2) }
       };
       let sched = gen_schedule(&mut rng, &hist, &sp);
-      let lateness = if prop == "C11" || prop == "C12" { *rng.pick(&[0u64, 0, 0, 3 * MS, 40 * MS]) } else { 0 };
-      let rr = run_case(&case.layout, &sched, None, lateness, false);
+      let lateness = if prop == "C11" || prop == "C12" { *rng.pick(&[0u64, 0, 0, 0, 3 * MS, 40 * MS, 700 * MS]) } else { 0 };
+      // a one-off stall (process stopped, machine suspended): one time-out is served very late, then the loop has to catch up
+      let stall: Option<(usize, u64)> = if (prop == "C11" || prop == "C12" || prop == "C10") && rng.chance(1, 6) {
+        Some((rng.range(1, 6), *rng.pick(&[150 * MS, 1200 * MS, 2500 * MS, 30_000 * MS]))) } else { None };
+      let rr = run_case_stall(&case.layout, &sched, None, lateness, false, stall);
+      if stall.is_some() { out.count("schedules_with_a_stall"); }
       out.count("schedules");
       out.add("driver_calls", rr.calls as u64);
       if let Some(p) = &rr.panicked {
@@ -886,7 +920,7 @@ pub fn run(opts: &Opts) -> i32 {
       };
       if nontrivial { out.nontrivial(hash64(&(case.id, hash_str(&schedule_json(&sched).to_string()), lateness))); }
       if prop != "C20" {
-        if record(&mut out, &prop, &lvs, case, &sched, None, lateness, &rr.log) {
+        if record_stall(&mut out, &prop, &lvs, case, &sched, None, lateness, &rr.log, stall) {
           if lvs.iter().any(|l| l.property == prop && !known.contains(&l.signature)) { bad += 1; if bad >= 2 { break; } }
         }
         if out.wants_sample() && si == 1 && nontrivial {
@@ -929,7 +963,7 @@ pub fn run(opts: &Opts) -> i32 {
       if prop == "C20" {
         if !lvs.is_empty() { out.count("fault_free_runs_with_other_observations"); }
         let n = rr.calls;
-        let stride = if thorough || n <= 120 { 1 } else { 1 + n / 120 };
+        let stride = if n <= 120 || (thorough && n <= 600) { 1 } else { 1 + n / (if thorough { 600 } else { 120 }) };
         let mut k = rng.below(stride);
         let mut kinds: std::collections::BTreeMap<&'static str, u64> = std::collections::BTreeMap::new();
         while k < n {
@@ -1020,7 +1054,8 @@ pub fn replay(rep: &Value, out: &mut ShardOut) -> bool {
   std::panic::set_hook(Box::new(|_| {}));
   let mut rng = Rng::new(1);
   let case = make_case(layout.clone(), "replay", vec![None; layout.mappings.len()], &mut rng, 1000);
-  let rr = run_case(&layout, &sched, fault_at, lateness, real);
+  let stall = rep.get("stall").and_then(|s| s.as_array()).and_then(|a| Some((a.get(0)?.as_u64()? as usize, a.get(1)?.as_u64()?)));
+  let rr = run_case_stall(&layout, &sched, fault_at, lateness, real, stall);
   let mut lvs = if fault_at.is_some() { check_fault(&rr.log, fault_at.unwrap(), rr.runaway, &rr.panicked) } else { check_log(&layout, &rr.log, real).0 };
   if fault_at.is_none() {
     if let Some(p) = &rr.panicked { lvs.push(LV { property: "C10", clause: "panic", signature: format!("{}:loop-panicked", prop), message: p.clone(), index: rr.log.len() }); }
